@@ -588,6 +588,9 @@ struct Item {
     depth: usize,
     /// None: the history prefixes shorter than the split prefix; Some(p): every history extending p
     prefix: Option<Vec<Act>>,
+    /// warm-up executed on the real roller before every history (not counted in the depth): the directory then
+    /// already holds rolled files, with sequence numbers about to gain a digit
+    warm: Vec<Act>,
 }
 
 #[derive(Default)]
@@ -613,6 +616,8 @@ fn scenario_name(p: &Policy) -> String {
 /// is re-executed (must fail again the same way) and kept.
 fn run_history(item: &Item, hist: &[Act], dir: &Path, res: &mut ItemResult, kept: &mut BTreeMap<String, usize>) {
     let policy = &item.policy;
+    let full: Vec<Act> = item.warm.iter().chain(hist.iter()).copied().collect();
+    let hist: &[Act] = &full;
     let e = execute(policy, hist, dir);
     res.executions += 1;
     res.transitions += e.applied as u64;
@@ -657,16 +662,20 @@ fn dfs(item: &Item, hist: &mut Vec<Act>, dir: &Path, res: &mut ItemResult, kept:
 }
 
 fn push_items(items: &mut Vec<Item>, scen: &str, policy: &Policy, alpha: &[Act], depth: usize) {
+    push_items_warm(items, scen, policy, alpha, depth, &[]);
+}
+
+fn push_items_warm(items: &mut Vec<Item>, scen: &str, policy: &Policy, alpha: &[Act], depth: usize, warm: &[Act]) {
     let split = depth.min(2);
     if split > 1 {
-        items.push(Item { scen: scen.into(), policy: policy.clone(), alpha: alpha.to_vec(), depth, prefix: None });
+        items.push(Item { scen: scen.into(), policy: policy.clone(), alpha: alpha.to_vec(), depth, prefix: None, warm: warm.to_vec() });
     }
     let mut prefixes: Vec<Vec<Act>> = vec![vec![]];
     for _ in 0..split {
         prefixes = prefixes.iter().flat_map(|p| alpha.iter().map(move |a| { let mut q = p.clone(); q.push(*a); q })).collect();
     }
     for pre in prefixes {
-        items.push(Item { scen: scen.into(), policy: policy.clone(), alpha: alpha.to_vec(), depth, prefix: Some(pre) });
+        items.push(Item { scen: scen.into(), policy: policy.clone(), alpha: alpha.to_vec(), depth, prefix: Some(pre), warm: warm.to_vec() });
     }
 }
 
@@ -731,6 +740,22 @@ pub fn run_roller(tier: &str, jobs: usize, best: &mut Best, depth_override: Opti
     for p in long_record_policies() {
         note(&mut bounds, "roller.long_records", &p, &long_alpha, long_depth);
         push_items(&mut items, "roller.long_records", &p, &long_alpha, long_depth);
+    }
+    // warm start: nine rolls have already happened in the current period, so the rolls of the explored history
+    // carry the sequence numbers 9, 10, 11 ... (the rolled-file name gains a digit): ordering by sequence number and
+    // retention are exercised across that boundary
+    let warm: Vec<Act> = (0..9).map(|_| Act::W(9)).collect();
+    let warm_depth = if tier == "quick" { 3 } else { 4 };
+    for retention in [Some(1u32), Some(2), Some(3), None] {
+        for period in ["never", "minutely"] {
+            let p = Policy { size: Some(8), period: period.into(), retention, compression: "off".into(), flush_each_write: true };
+            let alpha = [Act::W(9), Act::W(2), Act::R, Act::SP];
+            note(&mut bounds, "roller.after_nine_rolls", &p, &alpha, warm_depth);
+            push_items_warm(&mut items, "roller.after_nine_rolls", &p, &alpha, warm_depth, &warm);
+        }
+    }
+    if let Some(b) = bounds.get_mut("roller.after_nine_rolls") {
+        b.insert("warm_up".into(), json!("9 x W9 on the real roller before every history (size limit 8: every write but the first rolls)"));
     }
     for b in bounds.values_mut() {
         b.insert("clock_start".into(), json!("2024-02-28T23:59:59Z (1 s before a minute, hour and day boundary); S1 = +1 s, SP = +1 period (1 day for 'never')"));
